@@ -35,6 +35,7 @@ def shape(b):
 def name_map(d):
     cn = [x["name"] for x in certv2.default_spec(d)["x509"]]
     m = {"x%d" % (i + 1): cn[i] for i in range(d)}
+    m.update({"gatt": "g_attestation", "gquote": "g_quote", "evil": "evil_ca"})     # (forged branch)
     m.update({"att": "attestation", "quote": "quote", "spare": "spare_ca", "ghost": "ghost_ca",
               ROOT: ROOT, "other": "other", "wrong": "wrong", "nokey": "nokey", "foreign": "foreign"})
     return m
@@ -73,7 +74,15 @@ def plan_names(b, rng):
     return m
 
 
-def orig_parent(n, d, spare_kind):
+def orig_parent(n, d, spare_kind, cert=None):
+    if n == "gatt":
+        return "x%d" % d
+    if n == "gquote":
+        return "gatt"
+    if n == "evil":
+        return cert["evil"]["by"] if cert else "gatt"
+    if n == "att" and cert is not None and "evil" in cert:
+        return "evil"
     if n == "quote":
         return "att"
     if n == "att":
@@ -242,6 +251,8 @@ def plans_for(b, rng, nflip):
         sp["root"]["window"] = b["rot"].get("win", "all")
         sp["rot"] = rng.choice(("right", "right", "samekey")) if b["rot"]["key"] == ROOT \
             else {"wrong": "fresh", "foreign": "foreign"}.get(b["rot"]["key"], "top")
+        if b["rot"].get("kind") == "v1root":
+            sp["rot"] = "v1root"            # a root of trust of another kind
         if spare_kind != "none":
             ex = {"name": m["spare"], "parent": m[orig_parent("spare", d, spare_kind)],
                   "time": "Valid", "curve": "P256", "sig": "parent",
@@ -251,7 +262,14 @@ def plans_for(b, rng, nflip):
             sp["extra"] = [ex]
         for n, e in cert.items():
             cn = m[n]
-            op = orig_parent(n, d, spare_kind)
+            op = orig_parent(n, d, spare_kind, cert)
+            if n in ("gatt", "gquote"):
+                continue                    # genuine elements of the forged-branch shape
+            if n == "evil":
+                # an X.509 element whose named certifier is an element of another kind
+                sp["graft"] = {"under": "quote" if e["by"] == "gquote" else "attkey",
+                               "sig": {"evil": "self", "gatt": "certifier"}.get(e["sigBy"], "other")}
+                continue
             if e["by"] != op:
                 sp["reparent"][cn] = m[e["by"]]
             sigbad = e["sigBy"] == "other"
@@ -477,6 +495,15 @@ def observe(cert, root_pem, target, scratch, tag, via_file=True, pre_root_pem=No
             undo()
 
 
+def _root_of_trust(path, text):
+    """The object handed to validate_and_get_values: the X.509 root element read from the PEM file, or -
+    for the text "v1root:<hex>" - a root of trust of another kind (version-1 HSMCertificateRoot)."""
+    from admin.certificate import HSMCertificateRoot, HSMCertificateV2ElementX509
+    if text.startswith("v1root:"):
+        return HSMCertificateRoot(text[len("v1root:"):])
+    return HSMCertificateV2ElementX509.from_pemfile(path, ROOT, ROOT)
+
+
 def _observe(cert, root_pem, target, scratch, tag, via_file=True, pre_root_pem=None):
     """Run the real loader + validator; project the outcome. With `pre_root_pem` the certificate object is
     first asked about that other root of trust and only then about `root_pem` (the verdict must be a
@@ -487,7 +514,7 @@ def _observe(cert, root_pem, target, scratch, tag, via_file=True, pre_root_pem=N
     obs = {"loaded": False, "valid": False, "failing": "none", "exc": None, "reported": EMPTY_VALUES}
     cp, rp = certv2.write_files(cert, root_pem, scratch, tag)
     try:
-        root = HSMCertificateV2ElementX509.from_pemfile(rp, ROOT, ROOT)
+        root = _root_of_trust(rp, root_pem)
         try:
             c = HSMCertificate.from_jsonfile(cp) if via_file else HSMCertificateV2(cert)
         except ValueError as e:
@@ -607,7 +634,7 @@ def _observe_history(cert, root_pem, target, scratch, tag, instants, via_file=Tr
     cp, rp = certv2.write_files(cert, root_pem, scratch, tag)
     ap = os.path.join(scratch, "alt_%s.pem" % tag)
     try:
-        root = HSMCertificateV2ElementX509.from_pemfile(rp, ROOT, ROOT)
+        root = _root_of_trust(rp, root_pem)
         alt = None
         if alt_root_pem is not None:
             with open(ap, "w") as f:
@@ -807,6 +834,11 @@ def defects_of(abstract):
         out.append("x509-elements:%s" % ("4..255" if nx < 256 else "256+"))
     if any(n != ROOT and e["kind"] == "x509" and e["key"] == ROOT for n, e in cert.items()):
         out.append("root-certificate-reappears-in-chain")
+    if abstract["rot"].get("kind") != "x509":
+        out.append("rot:kind=%s" % abstract["rot"].get("kind"))
+    for n, e in cert.items():
+        if e["kind"] == "x509" and e["by"] in cert and cert[e["by"]]["kind"] != "x509":
+            out.append("x509-certified-by-%s" % cert[e["by"]]["kind"])
     if abstract["rot"]["key"] != ROOT:
         out.append({"wrong": "rot=wrong", "foreign": "rot=foreign-root"}.get(abstract["rot"]["key"],
                                                                             "rot=top-element"))
@@ -1261,6 +1293,26 @@ def run(ctx):
     res.coverage.setdefault("phase_wall_s", {})["long_chains"] = round(time.time() - _t0, 1)
     res.coverage["long_chain_profiles"] = len(sc_tasks)
     all_traces += sc
+    # 5a'. an X.509 element certified by an element of ANOTHER KIND (forged branch under a genuine attestation
+    # key / quote, forged quote as target), and a root of trust of another kind ---------------------------
+    kind_tasks = []
+    for depth in (1, 2, 3):
+        for under in ("attkey", "quote"):
+            for gsig in ("self", "certifier", "other") if under == "attkey" else ("self", "other"):
+                sp = certv2.default_spec(depth)
+                sp.update(vary_content=True, shuffle=ctx.rng.random() < 0.5, graft={"under": under, "sig": gsig})
+                tid += 1
+                kind_tasks.append((tid, ctx.seed, {"spec": sp, "flips": []},
+                                   {"src": "other-kind", "case": "x509-under-%s,%s" % (under, gsig)}, ctx.scratch))
+        for extra in ({}, {"graft": {"under": "attkey", "sig": "self"}}):
+            sp = certv2.default_spec(depth)
+            sp.update(vary_content=True, rot="v1root", **extra)
+            tid += 1
+            kind_tasks.append((tid, ctx.seed, {"spec": sp, "flips": []},
+                               {"src": "other-kind", "case": "root-of-trust-is-v1-root"}, ctx.scratch))
+    kt = run_tasks(kind_tasks)
+    res.coverage["other_kind_certifier_profiles"] = len(kind_tasks)
+    all_traces += kt
     # 5b. numeric boundaries of every decoded integer of the quote (genuine certificates) ---------------
     prof_tasks = []
     for lay, where in ((certv2.QUOTE_HEADER, "header"), (certv2.REPORT_BODY, "body")):
